@@ -1,16 +1,18 @@
 open Model
 open Conv
 open SrThunk
-(* srthunk <ignored program words> | tid tid ...   (logical threads: 0 callback, 1 deferred stop, 2 completion) *)
+(* srthunk <v|e|d> <ignored program words> | tid tid ...   (logical threads: 0 callback, 1 deferred stop, 2 completion) *)
+let kname = function Some k -> (match int_of_nat k with 0 -> "value" | 1 -> "error" | _ -> "done") | None -> "unset"
 let render = function
   | ERc (sub, o, n) -> Printf.sprintf "rc %s %d->%d" (if sub then "U.acq_rel" else "A.rlx") (int_of_z o) (int_of_z n)
   | EEnq -> "enq"
-  | ERoot -> "root"
+  | ERoot k -> "root " ^ kname k
 let () =
   Registry.register "srthunk" (fun args ->
     let rec split = function [] -> [] | "|" :: r -> r | _ :: r -> split r in
     let tids = split args in
+    let k = match args with w :: _ when w = "e" -> 1 | w :: _ when w = "d" -> 2 | _ -> 0 in
     let step t s = SrThunk.step (nat_of_int t) s in
-    let (st, tr) = Lockstep.run step render SrThunk.init (ints_of_words tids) in
+    let (st, tr) = Lockstep.run step render (SrThunk.init (nat_of_int k)) (ints_of_words tids) in
     Printf.sprintf "%s # resumed=%d quiescent=%s" tr (List.length (SrThunk.resumed st))
       (if SrThunk.quiescent st then "1" else "0"))
